@@ -1159,6 +1159,12 @@ pub enum ProbeOutcome {
 /// Runs the probe binary over `inputs` (name, payload); `front` = parse + analyse source text instead of
 /// decoding IR bytes. After a kill the remaining inputs are run in a new process. None = probe unusable.
 pub fn stack_probe(env: &Env, tag: &str, front: bool, inputs: &[(String, Vec<u8>)]) -> Option<Vec<(String, ProbeOutcome)>> {
+    stack_probe_mode(env, tag, if front { "front" } else { "" }, inputs)
+}
+
+/// `mode`: "" (decode IR payloads), "front" (parse + analyse source texts), "request" (IR payloads wrapped into
+/// resolve requests and handed to parse_resolve_request)
+pub fn stack_probe_mode(env: &Env, tag: &str, mode: &str, inputs: &[(String, Vec<u8>)]) -> Option<Vec<(String, ProbeOutcome)>> {
     use std::os::unix::process::ExitStatusExt;
     let probe = env.target_dir.join("stackprobe").join("debug").join("tx3-stackprobe");
     if !probe.exists() {
@@ -1175,8 +1181,8 @@ pub fn stack_probe(env: &Env, tag: &str, front: bool, inputs: &[(String, Vec<u8>
         let text: String = pending.iter().map(|i| hex::encode(&inputs[*i].1) + "\n").collect();
         std::fs::write(&file, text).ok()?;
         let mut cmd = std::process::Command::new(&probe);
-        if front {
-            cmd.arg("front");
+        if !mode.is_empty() {
+            cmd.arg(mode);
         }
         // bounded: the probe gets 240 s of wall clock per invocation (it normally needs a second or two); on an
         // overrun it is killed and the caller is told the probe was unusable (inconclusive, never a verdict)
